@@ -1,4 +1,4 @@
-import AranyaV.Proofs.CompileExpr
+import AranyaV.Proofs.CompileProg
 /-!
 # C22 — Compiled policy code computes the language semantics
 
@@ -18,16 +18,24 @@ them, then from any activation state at `wp` the VM runs to `wp + |code|` with t
 pushed (scopes, call stack and the stack below untouched) — or exits / returns / fails exactly as
 `eval` says.  It is proved by induction on the evaluator's fuel.
 
-Proved so far: `exec_compile_arith_partial` — the simulation for the expression fragment `supE`
-(literals, variables, enum references, `Some/Ok/Err`, `!`, `is Some/None`, field access, `as`,
-`== != < > <= >=`, `&& || or` with their short-circuit jumps, `if` expressions, the builtins
-`add/sub` (checked, `None` exactly on i64 overflow) and `saturating_add/sub`, `todo()`, `return`).
+Proved so far (fragment `supE` / `supS`): literals, variables, enum references, `Some/Ok/Err`,
+`!`, `is Some/None`, field access, `as`, `== != < > <= >=`, `&& || or` with their short-circuit
+jumps, `if` expressions, block expressions, the builtins `add/sub` (checked, `None` exactly on
+i64 overflow) and `saturating_add/sub`, `todo()`, `return` (also from inside nested blocks and
+operand positions), user function calls (prologue, `SaveSP/RestoreSP`, `Call/Return`, falling
+off the end panics); statements `let`, `check`, `return`, `debug_assert`, `if/else if/else`.
+Not yet: struct literals, `substruct`, foreign calls, `match` (covered by the tie only).
+
+* `exec_compile_arith_partial` — the code-at-pc simulation for expressions of the fragment,
+* `compile_correct_noMatch_partial` — the program-level statement for programs whose function
+  bodies lie in the fragment, from `compileProgram = some cp` (no layout hypotheses).
 -/
 namespace AranyaV.Lang
 open AranyaV.Gen.Lang
 
-/-- **C22, stage 1** (`_partial`: expression fragment `supE`; statements, blocks, struct
-literals, `substruct`, `match`, user and foreign calls are not covered yet).
+/-- **C22, stage 1** (`_partial`: expression fragment `supE`; struct literals, `substruct`,
+`match` and foreign calls are not covered yet).  `hP` states that the program's functions sit
+where their labels point (`funsOk_of_compile` derives it from `compileProgram = some cp`).
 
 `S.m.prog` is any program memory in which the resolved code of `e` sits at `wp` (`CodeAt`) and in
 which the labels `e`'s code defines resolve to the compiler's addresses (`DefsOk`).  The VM state
@@ -36,7 +44,7 @@ the stack at function entry (`SaveSP` recorded `base.length`), `env` the block s
 callers' frames, `K` the callers' call stack. -/
 theorem exec_compile_arith_partial (S : Sim) (n : Nat) (e : Expr) (env : Env) (log : Log) (wp c : Nat)
     (junk base : List Val) (fr : List Env) (K : List Nat)
-    (hfrag : supE e = true)
+    (hP : ProgOk S) (hfrag : supE e = true)
     (hcode : CodeAt S.labels S.m.prog wp (compileExpr S.m.p.structs wp c e).code)
     (hdefs : DefsOk S.labels (compileExpr S.m.p.structs wp c e).defs) :
     let s0 : VM := ⟨junk ++ base, env :: fr, base.length :: K, wp, log⟩
@@ -49,11 +57,57 @@ theorem exec_compile_arith_partial (S : Sim) (n : Nat) (e : Expr) (env : Env) (l
     -- an early return: the VM stands before `Return` with exactly `v :: base` on the stack
     (∀ v l, evalExpr S.m.p n env log e = .ret v l →
         ∃ envJ pcR, Steps S.m s0 ⟨v :: base, envJ :: fr, K, pcR, l⟩ ∧ S.m.prog[pcR]? = some .Return) := by
-  have h := (sim_all S n).e e env log wp c junk base fr K hfrag hcode hdefs
+  have h := (sim_all S hP n).e e env log wp c junk base fr K hfrag hcode hdefs
   refine ⟨?_, ?_, ?_⟩
   · intro v l hv; rw [hv] at h; exact h
   · intro r l hv; rw [hv] at h; exact h
   · intro v l hv; rw [hv] at h; exact h
+
+/-- **C22, program level** (`_partial`: every function body in the fragment `supSs` — no struct
+literals, `substruct`, foreign calls or `match`; `hP.ffi` is the arity side condition on foreign
+functions and is vacuous for this fragment).
+
+For a program whose compilation succeeds, running function `f` on `args` from the harness's
+initial state (`VM.init`: arguments pushed in order, pc at the function's label) ends exactly as
+the language semantics says: the value on an otherwise empty stack and a normal exit; or the
+policy exit; or the foreign-function error — each after the same foreign calls. -/
+theorem compile_correct_noMatch_partial (p : Program) (cp : Compiled) (ar : Nat → Nat → Option Nat)
+    (hc : compileProgram p.structs p.funs = some cp)
+    (hfrag : ∀ f fd, p.funDef f = some fd → supSs fd.body = true)
+    (hffi : FfiOk ⟨cp.prog, p, ar⟩)
+    (n f : Nat) (args : List Val) (entry : Nat) (hentry : cp.entry f = some entry) :
+    let m : Machine := ⟨cp.prog, p, ar⟩
+    match evalFn p n f args with
+    | .val v l => ∃ k t, run m k (VM.init entry args) = .exited .Normal t ∧ t.stack = [v] ∧ t.log = l
+    | .exit r l => ∃ k t, run m k (VM.init entry args) = .exited r t ∧ t.log = l
+    | .ffiErr l => ∃ k, run m k (VM.init entry args) = .error .ffi l
+    | _ => True := by
+  intro m
+  let S : Sim := ⟨m, cp.labels⟩
+  have hP : ProgOk S := ⟨funsOk_of_compile hc p rfl rfl ar, hfrag, hffi⟩
+  have h := fun_sim S hP n f args entry hentry
+  show match evalFn S.m.p n f args with
+    | .val v l => ∃ k t, run S.m k (VM.init entry args) = .exited .Normal t ∧ t.stack = [v] ∧ t.log = l
+    | .exit r l => ∃ k t, run S.m k (VM.init entry args) = .exited r t ∧ t.log = l
+    | .ffiErr l => ∃ k, run S.m k (VM.init entry args) = .error .ffi l
+    | _ => True
+  cases hr : evalFn S.m.p n f args with
+  | val v l =>
+    rw [hr] at h
+    obtain ⟨t, hex, hs, hl⟩ := h
+    obtain ⟨k, hk⟩ := run_of_exits hex
+    exact ⟨k, t, hk, hs, hl⟩
+  | exit r l =>
+    rw [hr] at h
+    obtain ⟨t, hex, hl⟩ := h
+    obtain ⟨k, hk⟩ := run_of_exits hex
+    exact ⟨k, t, hk, hl⟩
+  | ffiErr l =>
+    rw [hr] at h
+    exact run_of_errors h
+  | ret v l => trivial
+  | stuck => trivial
+  | oof => trivial
 
 /-! ### i64 edges are in the statement -/
 
